@@ -182,6 +182,9 @@ func parseSubstituteArgs(f slip.Object, s *slip.Scope, args slip.List, depth int
 		switch tv := v.(type) {
 		case slip.Fixnum:
 			sr.count = int(tv)
+			if sr.count < 0 {
+				sr.count = 0
+			}
 		case nil:
 			// leave as -1 for now
 		default:
@@ -197,6 +200,9 @@ func (sr *subRep) replace(seq slip.List) slip.Object {
 	}
 	if sr.count < 0 {
 		sr.count = len(seq)
+	}
+	if sr.count == 0 {
+		return seq
 	}
 	if sr.rev {
 		for i := sr.end - 1; sr.start <= i; i-- {
@@ -222,11 +228,12 @@ func (sr *subRep) maybe(seq slip.List, i int) bool {
 	if sr.tc != nil {
 		if sr.tc.Call(sr.s, slip.List{sr.old, v}, sr.depth) != nil {
 			seq[i] = sr.rep
+			sr.count--
 		}
 	} else if slip.ObjectEqual(sr.old, v) {
 		seq[i] = sr.rep
+		sr.count--
 	}
-	sr.count--
 	return sr.count <= 0
 }
 
@@ -236,6 +243,9 @@ func (sr *subRep) replaceBytes(seq []byte) slip.Object {
 	}
 	if sr.count < 0 {
 		sr.count = len(seq)
+	}
+	if sr.count == 0 {
+		return slip.Octets(seq)
 	}
 	if sr.rev {
 		for i := sr.end - 1; sr.start <= i; i-- {
@@ -261,10 +271,11 @@ func (sr *subRep) maybeByte(seq []byte, i int) bool {
 	if sr.tc != nil {
 		if sr.tc.Call(sr.s, slip.List{sr.old, v}, sr.depth) != nil {
 			seq[i] = byte(sr.rep.(slip.Octet))
+			sr.count--
 		}
 	} else if slip.ObjectEqual(sr.old, v) {
 		seq[i] = byte(sr.rep.(slip.Octet))
+		sr.count--
 	}
-	sr.count--
 	return sr.count <= 0
 }
